@@ -214,8 +214,12 @@ fn process_spcr_block<H: Host>(
 
     // chBorder
     // Setting the border after the out to 0xfe above because that too
-    // sets the border color.
-    emulator.controller.border_color = ZXColor::from_bits(block_data[0]);
+    // sets the border color. Border renderer has to be told too: out above may carry
+    // another color or may be taken by IO extender
+    let clocks = emulator.controller.frame_clocks;
+    emulator
+        .controller
+        .set_border_color(clocks, ZXColor::from_bits(block_data[0]));
     Ok(())
 }
 
